@@ -227,7 +227,15 @@ Proof. exact @ph_complete. Qed.
 Print Assumptions C01_pst13_hiding_multi_complete.
 
 Theorem C01_pst13_commit_is_comm_of :
-  forall (FO : FieldOps) nv s betas p hiding has_rng blind cm st,
-    ph_commit1 nv s betas p hiding has_rng blind = Ok (cm, st) -> cm = comm_of betas (p, st).
+  forall (FO : FieldOps) nv s betas p hiding rng cm st n,
+    ph_commit1 nv s betas p hiding rng = Ok (cm, st, n) -> cm = comm_of betas (p, st).
 Proof. exact @ph_commit1_comm. Qed.
 Print Assumptions C01_pst13_commit_is_comm_of.
+
+(* a committed polynomial (any RNG tape) is an admissible item of the completeness theorem *)
+Theorem C01_pst13_committed_items_good :
+  forall (FO : FieldOps) nv s betas p hiding rng cm st n,
+    wf_poly p -> poly_vars_in (seq 0 nv) p ->
+    ph_commit1 nv s betas p hiding rng = Ok (cm, st, n) -> good nv (p, st).
+Proof. exact @ph_commit1_good. Qed.
+Print Assumptions C01_pst13_committed_items_good.
